@@ -21,6 +21,24 @@ CHECKS = {
  'C04': ('Theorems C04.* (eof_outcome, timeout_outcome, marker index specs, pending_match_beats_eof_timeout, eof_clears, before_holds_all). '
          'Tie: scripted transport over marker positions and entry points; outcome classes compared with the model and the naive oracle.',
          'Sticky EOF of the real transports is validated in C06; diagnostic-message states are exercised on real spawn classes.', '4/C04'),
+ 'C13': ('Theorems C13.* over the transition table that T-split regenerates from utils.split_command_line on every run (split_roundtrip: any '
+         'non-empty args, 3 quoting styles, any whitespace incl. leading/trailing; argv_tail_roundtrip; which_* over an abstract file system). Tie: '
+         'translator + table interpreter vs real function (exhaustive short strings + random), which() on generated PATH layouts vs the model, '
+         'probe-child launches for argv/cwd/env/winsize/echo/SIGHUP.',
+         'ptyprocess.PtyProcess.spawn, subprocess.Popen and shlex.split are trusted to pass settings through (validated by the probe child).', '4/C13'),
+ 'C18': ('Theorems C18.* over the FSM table and the per-action stack effects that T-ansi regenerates from the live ANSI object and the action '
+         'functions\' ASTs: table_ok (decide), feed_never_raises, grid_and_cursor, no_residue, feed_chunk_independent, feed_bytes_chunk_independent. '
+         'Tie: translator + model vs real ANSI.write on exhaustive command sequences (2x3) and random inputs, str/bytes, all cut points.',
+         'Action semantics on the screen are hand-modelled (tied by the differential run); parameters longer than 4300 digits are a known finding; '
+         'bytes chunk independence assumes the codec chunk law (validated in C07).', '4/C18'),
+ 'C19': ('Theorems C19.*: shape_preserved for every op and argument, cell-level characterisation of put/fill/insert/scroll/erase, '
+         'ops_refine_reference (any op sequence = cell-by-cell reference grid), accessor lemmas; proved for all screen sizes and sequences. '
+         'Tie: Lean model vs pexpect.screen vs an independent Python reference grid on exhaustive short sequences and random sequences.',
+         'Characters are single code points; rows, cols >= 1; public attributes are not assigned by the caller.', '4/C19'),
+ 'C20': ('Theorems C20.* about the decision logic of compile_pattern_list / expect_exact preparation over pattern forms (forms_equivalent, '
+         'single_eq_singleton, dotall/ignorecase, compiled_flags_kept, other_rejected_before_consumption). Tie: compile_pattern_list output vs the '
+         'model on random form lists; metamorphic runs of one regex under every accepted form; invalid objects in every position.',
+         'Equal (pattern, flags) pairs select equal occurrences because re.compile is deterministic; the matching itself is C02/C03.', '4/C20'),
 }
 PENDING = {}
 for i in range(5, 21):
